@@ -17,6 +17,62 @@ open Demeter.Deribit
 
 namespace Deribit
 
+/-! rounding to the contract step keeps an amount of at least one step positive -/
+
+theorem pow10_pos' (k : Nat) : 0 < ((pow10 k : Nat) : Rat) := by
+  unfold pow10; positivity
+
+theorem quantHalfUp_pos (k : Nat) {x : Rat} (hx : 1 ≤ x * ((pow10 k : Nat) : Rat)) : 0 < quantHalfUp k x := by
+  have hpw := pow10_pos' k
+  have hxpos : 0 < x := (mul_pos_iff_of_pos_right hpw).mp (lt_of_lt_of_le one_pos hx)
+  have hnum : 0 < x.num := Rat.num_pos.mpr hxpos
+  have hden : (0 : Rat) < x.den := by exact_mod_cast x.den_pos
+  have hle : x.den ≤ x.num.natAbs * pow10 k := by
+    have h1 : (x.den : Rat) ≤ (x.num : Rat) * ((pow10 k : Nat) : Rat) := by
+      have := hx
+      rw [← Rat.num_div_den x] at this
+      rw [div_mul_eq_mul_div, le_div_iff₀ hden] at this
+      simpa using this
+    have h2 : (x.num : Rat) = ((x.num.natAbs : Nat) : Rat) := by
+      rw [← Int.cast_natCast, Int.natAbs_of_nonneg hnum.le]
+    rw [h2] at h1
+    exact_mod_cast h1
+  have hq : 0 < roundHalfUpNat (x.num.natAbs * pow10 k) x.den := by
+    unfold roundHalfUpNat
+    simp only []
+    split
+    · exact Nat.div_pos hle x.den_pos
+    · exact Nat.succ_pos _
+  unfold quantHalfUp
+  simp only [not_lt.mpr hnum.le, if_false]
+  rw [Rat.mkRat_eq_div]
+  apply div_pos
+  · exact_mod_cast hq
+  · exact hpw
+
+theorem roundDec_pos (e : Int) {x : Rat} (hx : tenPow e ≤ x) : 0 < roundDec e x := by
+  unfold roundDec
+  unfold tenPow at hx
+  split
+  · rename_i he
+    apply quantHalfUp_pos
+    by_cases h0 : e ≥ 0
+    · have : e = 0 := le_antisymm he h0
+      subst this
+      simpa [pow10] using hx
+    · rw [if_neg h0] at hx
+      have hp := pow10_pos' (-e).toNat
+      rw [div_le_iff₀ hp] at hx
+      exact hx
+  · rename_i he
+    have hT := tenPow_pos e
+    apply mul_pos _ hT
+    apply quantHalfUp_pos
+    have h0 : e ≥ 0 := by omega
+    have : tenPow e ≤ x := by unfold tenPow; exact hx
+    have h1 : 1 ≤ x / tenPow e := by rw [le_div_iff₀ hT]; simpa using this
+    simpa [pow10] using h1
+
 /-- the request names a price -/
 def Req.isLimit (r : Req) : Prop := r.priceTok ≠ none ∨ r.priceUsd ≠ none
 
@@ -190,12 +246,54 @@ theorem C15_sell_fills_rounded_amount (c : TokenCfg) (s s' : DState) (r : Req) (
       simpa only [Req.isLimit, not_or, not_not] using hlim
     exact C15_sell_market_fills_rounded_amount c s s' r fills fee hb hp h
 
+/-- **an accepted order is for a positive number of contracts**: `check_transaction` refuses amounts below one contract
+    step, and rounding (half up) an amount of at least one step to the step does not give zero -/
+theorem C15_accepted_amount_positive (c : TokenCfg) (s s' : DState) (r : Req) (res : Res) :
+    (buy DCtx.exact c s r = (.ok res, s') → 0 < roundDec c.tradeExp r.amount) ∧
+    (sell DCtx.exact c s r = (.ok res, s') → 0 < roundDec c.tradeExp r.amount) := by
+  constructor
+  · intro h
+    obtain ⟨_, ck, hck, _⟩ := buy_ok h
+    exact roundDec_pos _ (checkTx_ok hck).2.2.1
+  · intro h
+    obtain ⟨_, ck, _, _, hck, _⟩ := sell_ok h
+    exact roundDec_pos _ (checkTx_ok hck).2.2.1
+
+/-- **position after any accepted buy, market or limit** (`C15_buy_position` with both hypotheses discharged; non-negative
+    displayed sizes): `a = round(amount) > 0` contracts are added, the average buy price is size-weighted -/
+theorem C15_buy_position_total (c : TokenCfg) (s s' : DState) (r : Req) (fills : List Fill) (fee : Rat)
+    (hb : BookNonneg s.book) (h : buy DCtx.exact c s r = (.ok (.trade fills fee), s')) :
+    fillSum fills = roundDec c.tradeExp r.amount ∧ 0 < roundDec c.tradeExp r.amount ∧
+    ∃ p', AList.get? s'.positions r.name = some p' ∧
+      match AList.get? s.positions r.name with
+      | none => p'.amount = fillSum fills ∧ p'.buyAmt = fillSum fills ∧ p'.avgBuy = fillCost fills / fillSum fills ∧
+                p'.sellAmt = 0 ∧ p'.name = r.name
+      | some p => p'.amount = p.amount + fillSum fills ∧ p'.buyAmt = p.buyAmt + fillSum fills ∧
+                (p.buyAmt + fillSum fills ≠ 0 →
+                  p'.avgBuy = (p.avgBuy * p.buyAmt + fillCost fills) / (p.buyAmt + fillSum fills)) := by
+  have hfs := C15_buy_fills_rounded_amount c s s' r fills fee hb h
+  have hpos := (C15_accepted_amount_positive c s s' r _).1 h
+  exact ⟨hfs, hpos, C15_buy_position c s s' r fills fee h hfs (by rw [hfs]; exact hpos.ne')⟩
+
+/-- **position after any accepted sell, market or limit** (`C15_sell_avg_price` with both hypotheses discharged) -/
+theorem C15_sell_avg_price_total (c : TokenCfg) (s s' : DState) (r : Req) (fills : List Fill) (fee : Rat)
+    (hb : BookNonneg s.book) (h : sell DCtx.exact c s r = (.ok (.trade fills fee), s')) :
+    fillSum fills = roundDec c.tradeExp r.amount ∧ 0 < roundDec c.tradeExp r.amount ∧
+    ∃ p, AList.get? s.positions r.name = some p ∧
+      (p.amount - fillSum fills ≤ 0 → s'.positions = AList.erase s.positions r.name) ∧
+      (¬ p.amount - fillSum fills ≤ 0 → ∃ p', AList.get? s'.positions r.name = some p' ∧
+        p'.amount = p.amount - fillSum fills ∧ p'.sellAmt = p.sellAmt + fillSum fills ∧
+        (p.sellAmt + fillSum fills ≠ 0 →
+          p'.avgSell = (p.avgSell * p.sellAmt + fillCost fills) / (p.sellAmt + fillSum fills))) := by
+  have hfs := C15_sell_fills_rounded_amount c s s' r fills fee hb h
+  have hpos := (C15_accepted_amount_positive c s s' r _).2 h
+  exact ⟨hfs, hpos, C15_sell_avg_price c s s' r fills fee h hfs (by rw [hfs]; exact hpos.ne')⟩
+
 /-- **position after a limit buy** (`C15_buy_position` with its fill-total hypothesis discharged): one fill of
     `a = round(amount)` at the level price `q`; a fresh position holds `a` at average `q`, an existing one grows by `a`
     and averages `(old avg × old bought + a × q) / (old bought + a)` -/
 theorem C15_buy_position_limit (c : TokenCfg) (s s' : DState) (r : Req) (fills : List Fill) (fee : Rat)
-    (hlim : r.isLimit) (h : buy DCtx.exact c s r = (.ok (.trade fills fee), s'))
-    (hpos : roundDec c.tradeExp r.amount ≠ 0) :
+    (hlim : r.isLimit) (h : buy DCtx.exact c s r = (.ok (.trade fills fee), s')) :
     ∃ q, fills = [⟨q, roundDec c.tradeExp r.amount⟩] ∧
     ∃ p', AList.get? s'.positions r.name = some p' ∧
       match AList.get? s.positions r.name with
@@ -209,6 +307,7 @@ theorem C15_buy_position_limit (c : TokenCfg) (s s' : DState) (r : Req) (fills :
   obtain ⟨_, _, _, _, _, l, _, hf, _⟩ := C15_limit_fills_exactly_buy c s s' r fills fee hlim h
   have hfs : fillSum fills = roundDec c.tradeExp r.amount := by rw [hf]; simp [fillSum]
   have hfc : fillCost fills = roundDec c.tradeExp r.amount * l.price := by rw [hf]; simp [fillCost]
+  have hpos : roundDec c.tradeExp r.amount ≠ 0 := ((C15_accepted_amount_positive c s s' r _).1 h).ne'
   obtain ⟨p', hp', hm⟩ := C15_buy_position c s s' r fills fee h hfs (by rw [hfs]; exact hpos)
   refine ⟨l.price, hf, p', hp', ?_⟩
   rw [hfs, hfc] at hm
@@ -222,8 +321,7 @@ theorem C15_buy_position_limit (c : TokenCfg) (s s' : DState) (r : Req) (fills :
 
 /-- **position after a limit sell** (`C15_sell_avg_price` with its fill-total hypothesis discharged) -/
 theorem C15_sell_avg_price_limit (c : TokenCfg) (s s' : DState) (r : Req) (fills : List Fill) (fee : Rat)
-    (hlim : r.isLimit) (h : sell DCtx.exact c s r = (.ok (.trade fills fee), s'))
-    (hpos : roundDec c.tradeExp r.amount ≠ 0) :
+    (hlim : r.isLimit) (h : sell DCtx.exact c s r = (.ok (.trade fills fee), s')) :
     ∃ q, fills = [⟨q, roundDec c.tradeExp r.amount⟩] ∧
     ∃ p, AList.get? s.positions r.name = some p ∧
       (p.amount - roundDec c.tradeExp r.amount ≤ 0 → s'.positions = AList.erase s.positions r.name) ∧
@@ -235,6 +333,7 @@ theorem C15_sell_avg_price_limit (c : TokenCfg) (s s' : DState) (r : Req) (fills
   obtain ⟨_, _, _, _, _, l, _, hf, _⟩ := C15_limit_fills_exactly_sell c s s' r fills fee hlim h
   have hfs : fillSum fills = roundDec c.tradeExp r.amount := by rw [hf]; simp [fillSum]
   have hfc : fillCost fills = roundDec c.tradeExp r.amount * l.price := by rw [hf]; simp [fillCost]
+  have hpos : roundDec c.tradeExp r.amount ≠ 0 := ((C15_accepted_amount_positive c s s' r _).2 h).ne'
   obtain ⟨p, hp, hm⟩ := C15_sell_avg_price c s s' r fills fee h hfs (by rw [hfs]; exact hpos)
   rw [hfs, hfc] at hm
   exact ⟨l.price, hf, p, hp, hm⟩
